@@ -187,7 +187,7 @@ Theorem C03_try_pass_regenerated c b now :
     = enc_res (try_pass_leaf (probe_num c) (state b) (next_retry b) now true)
   /\ try_pass c b now =
      (let r := try_pass_leaf (probe_num c) (state b) (next_retry b) now true in
-      let s := seq_run c now b (snd r) in (sb s, fst r, sev s, shook s)).
+      let s := seq_run c now b (snd r) in (q_b s, fst r, q_ev s, q_hook s)).
 Proof. split; [apply cb_slow_TryPass_ok | apply try_pass_is_leaf]. Qed.
 
 Print Assumptions cb_retryTimeoutArrived_ok.
